@@ -23,6 +23,9 @@ STRING_POOLS = [
      'rex': ['^$', '^[a-b]$', '^[a-d]+$', '^bc', '^.*$']},
     {'strings': ['', 'é', 'ü', 'üñ', 'üñ\u2603'],
      'rex': ['^$', '^[é-ü]$', '^[é-ü\u2603]+$', '^üñ', '^.*$']},
+    # (values that end in blanks, and a value that is one blank)
+    {'strings': ['', ' ', 'x', 'y ', 'z  '],
+     'rex': ['^$', '^[ x]$', '^[ xyz]+$', '^[yz] ', '^.*$']},
     {'strings': ['', "'", '\\', '\\"', '\\"\U0001F600'],
      'rex': ['^$', "^['\\\\]$", '^[\'\\\\"\U0001F600]+$', '^\\\\"', '^.*$']},
 ]
